@@ -39,7 +39,7 @@ func kfBucket(args []KeyBuilderStage) (KeyBuilderStage, error) {
 		}
 
 		bucket := (val / bucketSize) * bucketSize
-		if val < 0 {
+		if bucket > val { // division truncates toward zero; round negatives down instead
 			bucket -= bucketSize
 		}
 
@@ -68,7 +68,7 @@ func kfBucketRange(args []KeyBuilderStage) (KeyBuilderStage, error) {
 
 		var start, end int64
 		start = (val / bucketSize) * bucketSize
-		if val < 0 {
+		if start > val { // division truncates toward zero; round negatives down instead
 			start -= bucketSize
 		}
 		end = start + (bucketSize - 1)
